@@ -9,20 +9,20 @@ from pbmon.oracle import linmodel as O
 PROPERTY = "C04"
 NSHARDS = {"quick": 4, "thorough": 16}
 CLAUSES = {
-    "C04.value": 4000,            # per-taxon values of gebv/gegv/predict/*_numpy/TrueBreedingValue == intercept + dosage*a (+ het*d)
-    "C04.forms.input": 3000,      # phased matrix == unphased projection == raw dosage array (every output)
-    "C04.forms.perm": 2000,       # taxon permutation permutes rows and labels together, leaves population summaries alone
-    "C04.forms.split": 600,       # marker partition: partial predictions / genic variances add up, tables concatenate
-    "C04.labels": 1500,           # taxa, taxa_grp of the input and trait of the model on every output matrix
-    "C04.stats.var": 2000,        # var_A, var_G (population variance of the values), var_a (genic)
-    "C04.stats.bulmer": 600,      # var_A / var_a, NaN exactly when the genic variance is zero
-    "C04.stats.score": 300,       # R^2
-    "C04.stats.counts": 6000,     # facount ... dapoly, nafixed, napoly (exact)
-    "C04.rrblup.trace": 40,       # the model's effects are the solver's output for the training data
-    "C04.rrblup.intercept": 40,
-    "C04.rrblup.mono": 15,
-    "C04.rrblup.criterion": 40,
-    "C04.rrblup.normaleq": 20,
+    "C04.value": 10000,            # per-taxon values of gebv/gegv/predict/*_numpy/TrueBreedingValue == intercept + dosage*a (+ het*d)
+    "C04.forms.input": 20000,      # phased matrix == unphased projection == raw dosage array (every output)
+    "C04.forms.perm": 15000,       # taxon permutation permutes rows and labels together, leaves population summaries alone
+    "C04.forms.split": 4000,       # marker partition: partial predictions / genic variances add up, tables concatenate
+    "C04.labels": 15000,           # taxa, taxa_grp of the input and trait of the model on every output matrix
+    "C04.stats.var": 7000,        # var_A, var_G (population variance of the values), var_a (genic)
+    "C04.stats.bulmer": 4000,      # var_A / var_a, NaN exactly when the genic variance is zero
+    "C04.stats.score": 1000,       # R^2
+    "C04.stats.counts": 20000,     # facount ... dapoly, nafixed, napoly (exact)
+    "C04.rrblup.trace": 100,       # the model's effects are the solver's output for the training data
+    "C04.rrblup.intercept": 150,
+    "C04.rrblup.mono": 50,
+    "C04.rrblup.criterion": 150,
+    "C04.rrblup.normaleq": 100,
 }
 HOOKS_REQUIRED = ["rrBLUP_ML0"]
 RULE = ("model cases: seeded class-based genotype arrays (1-120 taxa incl. 49/98/103, 1-60 markers, ploidy 1/2/4; classes random, "
@@ -254,7 +254,7 @@ def case_model(ctx, c):
                  "vrnt_name": numpy.array(["m%d" % i for i in range(p)], dtype=object)}
     adt = str(g.choice(["int8", "int64", "float64"]))
     mcls = "additive" if kind == "A" else "additive+dominance"
-    icls_in = "%s/ploidy %s" % (mcls, "2" if ploidy == 2 else "1 or 4")
+    icls_in = mcls if kind == "A" else "%s/%s" % (mcls, "diploid" if ploidy == 2 else "ploidy 1 or 4")
     ctx.case("model:%s/%s/%s" % (mcls, gcls, ucls), mat, u_a, u_d, beta, u_misc, repr(trait), repr(taxa), repr(taxa_grp), adt,
              trivial=(n < 2))
     if c % 101 == 0:
@@ -337,7 +337,8 @@ def case_model(ctx, c):
             gotf = numpy.asarray(got, dtype=float)
             okshape = gotf.shape == bul.shape
             nanok = okshape and numpy.array_equal(numpy.isnan(gotf), vazero)
-            ctx.check("C04.stats.bulmer", bool(nanok), site, "NaN exactly when the genic variance is zero", icls + "/" + zcls,
+            ctx.check("C04.stats.bulmer", bool(nanok), site, "NaN exactly when the genic variance is zero",
+                      "%s/%s" % (zcls, "array" if fname == "array" else "genotype matrix"),
                       witness=dict(wit0, form=fname, got=brief(got), expected=brief(bul), genic=brief(va)), coords=coords)
             if nanok:
                 ok, w = fclose(gotf, bul, bultol)
@@ -484,7 +485,6 @@ def case_model(ctx, c):
         needed = ["gebv", "gegv", "var_a"] + TABLES
         whole_bad = [nm for nm in needed if isinstance(whole.get(nm), Exception) or whole.get(nm) is None]
         site = defsite(model, "gebv")
-        scls = "%s/%d part%s" % (icls_in, k, "" if k == 1 else "s")
         scls = "%s/%s" % (icls_in, "single part" if k == 1 else "several parts")
         if fail is not None and whole_bad:
             ctx.raised("partitioned prediction", fail)
@@ -630,7 +630,9 @@ def case_fit(ctx, c):
         return
     rec = list(_REC)
     ctx.hook("rrBLUP_ML0", len(rec))
-    icls = "%s/%s" % (regime, ycls)
+    rcls = "n > polymorphic markers" if n > ppoly else "n <= polymorphic markers"
+    scls = "small response scale" if ycls == "scale 1e-3" else "unit or larger response scale"
+    ecls = "numpy entry point" if entry == "numpy" else "object entry point"
     wit0 = {"case": c, "nrecords": n, "nmarker": p, "npolymorphic": ppoly, "ntrait": t, "genotype_class": zcls,
             "response_class": ycls, "entry": entry, "dtype": zdt}
     site = "rrBLUPModel0.fit_numpy"
@@ -648,10 +650,10 @@ def case_fit(ctx, c):
     for i in range(t):
         y = Ytrain[:, i]
         mean = float(y.sum() / n)
-        ctx.check("C04.rrblup.intercept", abs(beta[0, i] - mean) <= O.tol(ymax), site, "intercept == training mean", ycls,
+        ctx.check("C04.rrblup.intercept", abs(beta[0, i] - mean) <= O.tol(ymax), site, "intercept == training mean", ecls,
                   witness=dict(wit0, trait=i, intercept=float(beta[0, i]), mean=mean), coords=coords)
         if ppoly < p:
-            ctx.check("C04.rrblup.mono", bool(numpy.all(ua[~poly, i] == 0.0)), site, "monomorphic marker has effect exactly 0", zcls,
+            ctx.check("C04.rrblup.mono", bool(numpy.all(ua[~poly, i] == 0.0)), site, "monomorphic marker has effect exactly 0", "monomorphic column present",
                       witness=dict(wit0, trait=i, effects=brief(ua[~poly, i])), coords=coords)
         lam = None
         if trace_ok:
@@ -664,12 +666,12 @@ def case_fit(ctx, c):
         rep = O.ridge_report(y, Zp, ua[poly, i], lam)
         lamok = lam == lam and 0.0 < lam < float("inf")
         ok = lamok and rep["crit_u"] <= rep["crit_0"] + O.tol(rep["crit_0"])
-        ctx.check("C04.rrblup.criterion", bool(ok), site, "penalised criterion at the solution <= at the all-zero solution", icls,
+        ctx.check("C04.rrblup.criterion", bool(ok), site, "penalised criterion at the solution <= at the all-zero solution", rcls,
                   witness=dict(wit0, trait=i, ridge=lam, criterion=rep["crit_u"], at_zero=rep["crit_0"]), coords=coords)
         if n > ppoly:
             bound = 1e-5 * rep["normb"] + 1e-12 * max(1.0, ymax)
             ok = lamok and rep["res"] <= bound
-            ctx.check("C04.rrblup.normaleq", bool(ok), site, "relative residual of (Z'Z + ridge I) u = Z'y_c <= 1e-5", icls + "/" + zcls,
+            ctx.check("C04.rrblup.normaleq", bool(ok), site, "relative residual of (Z'Z + ridge I) u = Z'y_c <= 1e-5", rcls + "/" + scls,
                       witness=dict(wit0, trait=i, ridge=lam, residual=rep["res"], norm_rhs=rep["normb"],
                                    relative=rep["res"] / rep["normb"] if rep["normb"] > 0 else None), coords=coords)
             if ok and rep["normb"] > 0:
@@ -689,7 +691,7 @@ def case_fit(ctx, c):
         ctx.raised("rrBLUPModel0.gebv", ex)
 
 
-FAMILIES = {"model": (case_model, 900, 64000), "fit": (case_fit, 120, 4800)}
+FAMILIES = {"model": (case_model, 2400, 240000), "fit": (case_fit, 280, 16000)}
 
 
 def run_shard(ctx):
